@@ -62,6 +62,7 @@ func main() {
 		os.Exit(2)
 	}
 	useCHA = *cg == "cha"
+	verifDir = *verif
 
 	switch {
 	case *list:
